@@ -21,6 +21,16 @@ def convert(beh, rng, name, opts):
         elif act in ('ServerExit', 'LoopReturn'): pass      # happen by themselves
         else: raise C.ToolError('unknown LoopImpl action ' + act)
         if rng.random() < 0.15: steps.append(dict(a='drain'))
+    # in the model a listener may fail right behind a connection it handed out (Accept, AcceptFail with nothing between
+    # them: the connection's goroutine has not run yet); the harness pauses after every step, so the pair is fused - for
+    # half of the behaviours that have it, and only where the harness's own accepter is used
+    if not opts.get('cancelCloses') and rng.random() < 0.5:
+        k = 0
+        while k + 1 < len(steps):
+            if steps[k] == dict(a='accept') and steps[k + 1].get('a') == 'acceptfail':
+                steps[k] = dict(a='accept', kind='thenclosing' if steps[k + 1]['kind'] == 'closing' else 'thenfail')
+                del steps[k + 1]
+            k += 1
     return dict(name=name, seed=rng.randrange(1 << 30), opts=opts, steps=steps)
 
 D = dict(a='drain')
@@ -43,6 +53,10 @@ def directed(rng):
         add('cancel-at-once-%s' % cc, cc, [dict(a='ctxcancel'), D] + ([A, D, ns(1), asg(1), D, dict(a='clientclose', c=1), D, dict(a='acceptfail', kind='closing'), D] if not cc else []))
         add('cancel-between-accepts-%s' % cc, cc, [A, ns(1), asg(1), D, dict(a='accept', kind='cancelafter'), D, ns(2), asg(2), D, dict(a='clientclose', c=1), dict(a='clientclose', c=2), D,
                                                    dict(a='acceptfail', kind='closing'), D])
+        if not cc:
+            # the listener fails right behind a connection it has just handed out: that connection is served and finished all the same
+            add('fail-behind-accept-%s' % cc, cc, [dict(a='accept', kind='thenfail'), D, ns(1), asg(1), D, dict(a='call', c=1), D, dict(a='hret', c=1), dict(a='clientclose', c=1), D])
+            add('closing-behind-accept-%s' % cc, cc, [A, ns(1), asg(1), D, dict(a='accept', kind='thenclosing'), D, ns(2), asg(2), D, dict(a='clientclose', c=2), dict(a='clientclose', c=1), D])
         add('three-%s' % cc, cc, [A, A, A, ns(1), ns(2), ns(3), asg(2, False), asg(1), asg(3), D, dict(a='clientclose', c=3), dict(a='call', c=1), D, dict(a='acceptfail', kind='other'), dict(a='hret', c=1), dict(a='clientclose', c=1), D])
     return out
 
